@@ -153,6 +153,12 @@ func main() {
 
 	// directives in overlay files of any loaded package
 	stubs := map[string]map[string]*ssa.Function{"": {}}
+	type exceptStub struct {
+		name   string
+		fn     *ssa.Function
+		except []string
+	}
+	var stubExcept []exceptStub
 	opaque := map[string]bool{}
 	noinit := map[string]bool{}
 	for _, d := range defaultOpaque {
@@ -204,6 +210,13 @@ func main() {
 						fn := sp.Func(fd.Name.Name)
 						if fn == nil {
 							fail("stub %s: function %s not found in ssa package", name, fd.Name.Name)
+						}
+						if len(only) > 0 && strings.HasPrefix(only[0], "!") {
+							// "@!h1,h2": every harness except those listed
+							only[0] = strings.TrimPrefix(only[0], "!")
+							stubExcept = append(stubExcept, exceptStub{name: name, fn: fn, except: only})
+							res.Stubs = append(res.Stubs, name+" => "+fn.String()+" except "+strings.Join(only, ","))
+							continue
 						}
 						for _, h := range only {
 							h = strings.TrimSpace(h)
@@ -320,6 +333,17 @@ func main() {
 		js := map[string]*ssa.Function{}
 		for k, v := range stubs[""] {
 			js[k] = v
+		}
+		for _, es := range stubExcept {
+			skip := false
+			for _, x := range es.except {
+				if strings.TrimSpace(x) == j.Harness {
+					skip = true
+				}
+			}
+			if !skip {
+				js[es.name] = es.fn
+			}
 		}
 		for k, v := range stubs[j.Harness] {
 			js[k] = v
